@@ -48,6 +48,17 @@ class Lock:
 # ------------------------------------------------------------------ builds
 def translate():
     """regenerate Gen/Tables.v from /repo/src; returns list of broken items"""
+    if ALT:
+        # development-time run against a scratch copy: never rewrite the shared Gen/Tables.v; a changed table is reported as a broken tie
+        tmp = os.path.join(CACHE, 'Tables-alt-%s.v' % ALT_TAG)
+        rc, out = sh(['python3', os.path.join(VERIF, 'tools', 'translate.py'), '--repo', REPO, '--out', tmp])
+        broken = [l for l in out.splitlines() if l.startswith('BROKEN')]
+        cur = os.path.join(COQ, 'theories', 'Gen', 'Tables.v')
+        if not broken and os.path.exists(tmp) and open(tmp).read() != open(cur).read():
+            import difflib
+            d = [l for l in difflib.unified_diff(open(cur).read().splitlines(), open(tmp).read().splitlines(), lineterm='', n=0) if l[:1] in '+-' and not l.startswith(('+++', '---'))]
+            broken.append('BROKEN tables-changed (theorems about the generated tables would have to be re-proved): ' + ' | '.join(x[:120] for x in d[:4]))
+        return broken, out
     rc, out = sh(['python3', os.path.join(VERIF, 'tools', 'translate.py'), '--repo', REPO])
     broken = [l for l in out.splitlines() if l.startswith('BROKEN')]
     return broken, out
@@ -67,8 +78,37 @@ def coq_target_ok(target):
         rc, out = sh('make -q %s' % target, cwd=COQ)
     return rc == 0
 
+ALT = REPO != '/repo'
+ALT_TAG = hashlib.sha1(REPO.encode()).hexdigest()[:8] if ALT else ''
+
+def target_root():
+    # development-time only: VERIF_REPO=<scratch worktree> runs the checks against a copy of the repository
+    # (seeded-mutation testing) with its own harness copy and build directory, leaving /repo untouched
+    return os.path.join(CACHE, 'target-alt-' + ALT_TAG) if ALT else os.path.join(CACHE, 'target')
+
+def harness_dir():
+    if not ALT:
+        return os.path.join(VERIF, 'harness')
+    d = os.path.join(CACHE, 'harness-alt-' + ALT_TAG)
+    src = os.path.join(VERIF, 'harness')
+    os.makedirs(d, exist_ok=True)
+    for root, dirs, files in os.walk(src):
+        dirs[:] = [x for x in dirs if x not in ('target',)]
+        rel = os.path.relpath(root, src)
+        os.makedirs(os.path.join(d, rel), exist_ok=True)
+        for f in files:
+            sp, dp = os.path.join(root, f), os.path.join(d, rel, f)
+            data = open(sp, 'rb').read()
+            if f == 'Cargo.toml':
+                data = data.replace(b'path = "/repo"', ('path = "%s"' % REPO).encode())
+            if f.endswith('.rs'):
+                data = data.replace(b'"/repo/', ('"%s/' % REPO).encode())
+            if not os.path.exists(dp) or open(dp, 'rb').read() != data:
+                open(dp, 'wb').write(data)
+    return d
+
 def harness_bin(cfg, name='sjh'):
-    return os.path.join(CACHE, 'target', cfg, 'release', name)
+    return os.path.join(target_root(), cfg, 'release', name)
 
 def build_harness(cfgs):
     """cargo build the harness for each feature configuration from /repo's working tree."""
@@ -76,14 +116,14 @@ def build_harness(cfgs):
     def one(cfg):
         feats, _ = CONFIGS[cfg]
         with Lock('cargo-' + cfg):
-            hd = os.path.join(VERIF, 'harness')
+            hd = harness_dir()
             lock = os.path.join(hd, 'Cargo.lock')
             if not os.path.exists(lock):
                 shutil.copy(os.path.join(REPO, 'Cargo.lock'), lock)
             cmd = ['cargo', 'build', '--release', '--offline', '-q']
             if feats:
                 cmd += ['--features', ','.join(feats)]
-            rc, out = sh(cmd, cwd=hd, timeout=1700, env={'CARGO_TARGET_DIR': os.path.join(CACHE, 'target', cfg)})
+            rc, out = sh(cmd, cwd=hd, timeout=1700, env={'CARGO_TARGET_DIR': os.path.join(target_root(), cfg)})
             return cfg, rc == 0 and os.path.exists(harness_bin(cfg)), out
     with ThreadPoolExecutor(max_workers=4) as ex:
         for cfg, ok, out in ex.map(one, cfgs):
@@ -169,11 +209,8 @@ def audit_sources():
     """grep the whole development for forbidden declarations (Section-local Variable/Hypothesis are allowed
     only inside a Section; we simply forbid them everywhere except files listed with explicit sections)."""
     bad = []
-    # the development = the committed .v files (work in progress that is not committed yet is not part of it)
-    rc, out = sh(['git', '-C', VERIF, 'ls-files', 'coq/theories'])
-    tracked = [os.path.join(VERIF, l) for l in out.splitlines() if l.endswith('.v')] if rc == 0 else []
-    if not tracked:
-        tracked = [os.path.join(r, f) for r, _, fs in os.walk(os.path.join(COQ, 'theories')) for f in fs if f.endswith('.v')]
+    # the development = the files listed in coq/FILES
+    tracked = [os.path.join(COQ, l.strip()) for l in open(os.path.join(COQ, 'FILES')) if l.strip() and not l.startswith('#')]
     for p in tracked:
         if not os.path.exists(p):
             continue
@@ -225,7 +262,7 @@ def write_json(path, obj):
 
 def replay_path(pid, obj):
     h = hashlib.sha1(json.dumps(obj, sort_keys=True).encode()).hexdigest()[:12]
-    p = os.path.join(VERIF, 'evidence', 'replay', '%s-%s.json' % (pid, h))
+    p = os.path.join(CACHE if ALT else VERIF, 'evidence', 'replay', '%s-%s.json' % (pid, h))
     write_json(p, obj)
     return p
 
